@@ -756,6 +756,11 @@ class Exec:
 
     def contains(self, a, b, st, node):
         if isinstance(b.ty, T.Dict):
+            if isinstance(a.ty, T.Opt) and not isinstance(b.ty.k, T.Opt):
+                # None is never a key of a dict whose keys have type b.ty.k
+                return z3.And(z3.Not(a.terms[0]), self.h.dict_has(st, b.ty, b.t, T.coerce(T.opt_inner(a), b.ty.k).t))
+            if a.ty is T.NoneT:
+                return z3.BoolVal(False)
             return self.h.dict_has(st, b.ty, b.t, T.coerce(a, b.ty.k).t)
         if isinstance(b.ty, T.Tuple):
             return z3.Or(*[self.equal(a, x) for x in T.tuple_items(b)])
@@ -968,7 +973,13 @@ class Exec:
             i = self.ev(idxnode, st)
             return self.list_index(st, base, i, node)
         if isinstance(ty, T.Dict):
-            k = T.coerce(self.ev(idxnode, st), ty.k)
+            kv = self.ev(idxnode, st)
+            if isinstance(kv.ty, T.Opt) and not isinstance(ty.k, T.Opt):
+                if not self.spec:
+                    self.oblige(st, "safety", f"keyerror-none@{getattr(node, 'lineno', 0)}", z3.Not(kv.terms[0]), node,
+                                "KeyError (None key)")
+                kv = T.opt_inner(kv)
+            k = T.coerce(kv, ty.k)
             if not self.spec:
                 self.oblige(st, "safety", f"keyerror@{getattr(node, 'lineno', 0)}",
                             self.h.dict_has(st, ty, base.t, k.t), node, "KeyError")
@@ -1260,7 +1271,12 @@ class Exec:
                                         self.h.list_sum(st, base.ty, base.t, k) - to_real(old.terms[k]) + to_real(new.terms[k]))
                 return
             if isinstance(base.ty, T.Dict):
-                k = T.coerce(self.ev(tg.slice, st), base.ty.k)
+                kv = self.ev(tg.slice, st)
+                if isinstance(kv.ty, T.Opt) and not isinstance(base.ty.k, T.Opt):
+                    self.oblige(st, "safety", f"none-key-store@{getattr(node, 'lineno', 0)}", z3.Not(kv.terms[0]), node,
+                                "None used as a key of a typed dict")
+                    kv = T.opt_inner(kv)
+                k = T.coerce(kv, base.ty.k)
                 self.h.dict_put(st, base.ty, base.t, k.t, v)
                 return
             if isinstance(base.ty, T.Ref):
